@@ -1053,6 +1053,31 @@ def hand_built():
     s['valves'] = [{'name': 'V2', 'a': 'J2', 'b': 'J1', 'type': 'PSV', 'diam': 0.3, 'minor': 0.0, 'setting': 20.0,
                     'status': 'ACTIVE'}]
     out.append(s)
+    # every kind of link *inside* a zone that is cut off (from the start, or by a control and never reconnected: an open
+    # constant-power pump does not survive a reconnection in WNTR); the rest of the network must still be solved
+    for inner in ('POWER', 'HEAD', 'TCV', 'FCV', 'PSV', 'PRV', 'CV'):
+        for late in (False, True):
+            s = _base(_opts(3 * 3600, 3600))
+            s['reservoirs'] = [{'name': 'R1', 'head': 60.0, 'pat': None}]
+            s['junctions'] = [_junction('J1', 10.0), _junction('J2', 8.0), _junction('J3', 6.0, 0.002), _junction('J4', 7.0)]
+            s['pipes'] = [_pipe('L1', 'R1', 'J1'), _pipe('L4', 'J1', 'J4'),
+                          _pipe('L2', 'J1', 'J2', 'OPEN' if late else 'CLOSED')]
+            if late:
+                s['controls'] = [_ctl(3600, 'L2', 'CLOSED')]
+            if inner == 'POWER':
+                s['pumps'] = [{'name': 'PU3', 'a': 'J2', 'b': 'J3', 'type': 'POWER', 'power': 500.0, 'curve': None,
+                               'status': 'OPEN'}]
+            elif inner == 'HEAD':
+                s['curves'] = {'HC1': {'type': 'HEAD', 'pts': [[0.004, 10.0]]}}
+                s['pumps'] = [{'name': 'PU3', 'a': 'J2', 'b': 'J3', 'type': 'HEAD', 'power': None, 'curve': 'HC1',
+                               'status': 'OPEN'}]
+            elif inner == 'CV':
+                s['pipes'].append(_pipe('L3', 'J2', 'J3', cv=True))
+            else:
+                s['valves'] = [{'name': 'V3', 'a': 'J2', 'b': 'J3', 'type': inner, 'diam': 0.3, 'minor': 0.0,
+                                'setting': {'TCV': 5.0, 'FCV': 0.001, 'PSV': 20.0, 'PRV': 20.0}[inner],
+                                'status': 'ACTIVE'}]
+            out.append(s)
     return out
 
 
